@@ -32,7 +32,8 @@ def gen_spec(seed):
         y = [round(z[0][i] * 2 + rng.gauss(0, 0.5), 3) for i in range(n)]
     quanti = {}
     for j in range(nq):
-        kind = rng.choice(['latent0', 'latent1', 'noise', 'copy_prev', 'monotone_prev', 'discrete', 'constant', 'nan_heavy', 'noisy_prev'])
+        kind = rng.choice(['latent0', 'latent1', 'noise', 'copy_prev', 'monotone_prev', 'discrete', 'constant', 'nan_heavy', 'noisy_prev',
+                           'neg_prev', 'outlier_low', 'outlier_high'])
         names = list(quanti)
         if kind == 'latent0':
             v = [round(z[0][i] + rng.gauss(0, 0.7), 3) for i in range(n)]
@@ -46,6 +47,14 @@ def gen_spec(seed):
         elif kind == 'noisy_prev' and names:
             src = quanti[rng.choice(names)]
             v = [None if x is None else round(x + rng.gauss(0, 0.05), 3) for x in src]
+        elif kind == 'neg_prev' and names:
+            src = quanti[rng.choice(names)]
+            v = [None if x is None else round(-x + rng.gauss(0, 0.02), 3) for x in src]
+        elif kind in ('outlier_low', 'outlier_high'):
+            sign = -1 if kind == 'outlier_low' else 1
+            v = [round(z[0][i] + rng.gauss(0, 0.5), 3) for i in range(n)]
+            for i in rng.sample(range(n), 2):
+                v[i] = round(sign * rng.uniform(25, 40), 3)
         elif kind == 'discrete':
             v = [float(rng.randint(0, 3)) for _ in range(n)]
         elif kind == 'constant':
@@ -70,7 +79,8 @@ def gen_spec(seed):
         quali[f'k{j}'] = v
     spec = {'task': task, 'quanti': quanti, 'quali': quali, 'y': y,
             'n_best': rng.randint(1, max(1, nq + nk)), 'thresh_corr': rng.choice([1, 1, 0.9, 0.7, 0.5]),
-            'measures': rng.choice(['default', 'default', 'alt']), 'copy_of_target': False}
+            'measures': rng.choice(['default', 'default', 'alt'] + (['outlier', 'multi'] if task == 'classification' else [])),
+            'copy_of_target': False}
     if rng.random() < 0.3:
         # a feature that is an exact copy of / strictly monotone in the target
         if task == 'regression' or rng.random() < 0.5:
@@ -105,6 +115,12 @@ def make_selector(spec):
     kw = dict(n_best=spec['n_best'], quantitative_features=list(spec['quanti']), qualitative_features=list(spec['quali']),
               thresh_corr=spec['thresh_corr'])
     if spec['task'] == 'classification':
+        if spec['measures'] == 'outlier':       # user-supplied outlier screen before the association measure
+            kw['quantitative_measures'] = [S.zscore_measure, S.kruskal_measure]
+            kw['thresh_zscore'] = 0.03
+        if spec['measures'] == 'multi':         # two association measures, both evaluated
+            kw['quantitative_measures'] = [S.kruskal_measure, S.R_measure]
+            kw['thresh_kruskal'] = 1e12
         if spec['measures'] == 'alt':
             kw['qualitative_measures'] = [S.cramerv_measure]
             kw['quantitative_filters'] = [S.pearson_filter]
@@ -202,8 +218,37 @@ def scaled(v):
     return int(round(float(v) * SCALE))
 
 
-def reference_measure(spec, f):
-    """independent value of the ranking measure of feature f, or None when undefined / discarded"""
+def eta(x, y):
+    """correlation ratio: sqrt of the R2 of the regression of x on the classes of y"""
+    pairs = [(v, c) for v, c in zip(x, y) if v is not None]
+    if len(pairs) < 2:
+        return None
+    xs = np.array([p[0] for p in pairs], dtype=float)
+    sst = ((xs - xs.mean()) ** 2).sum()
+    if sst == 0:
+        return None
+    ssb = 0.0
+    for cl in set(c for _, c in pairs):
+        g = np.array([v for v, c in pairs if c == cl], dtype=float)
+        ssb += len(g) * (g.mean() - xs.mean()) ** 2
+    r2 = ssb / sst
+    return math.sqrt(r2) if r2 > 0 else None
+
+
+def zscore_discards(x, thresh):
+    nn = np.array([v for v in x if v is not None], dtype=float)
+    if len(nn) < 2:
+        return False
+    std = nn.std(ddof=1)
+    if std == 0:
+        return False
+    out = sum(1 for v in x if v is not None and abs((v - nn.mean()) / std) > 3)
+    return not (out / len(x) < thresh)
+
+
+def reference_measure(spec, f, which=0):
+    """independent value of the ranking measure of feature f, or None when undefined / discarded;
+    `which` selects the measure when several are evaluated (spec['measures'] == 'multi')"""
     y = spec['y']
     if f in spec['quanti']:
         x = spec['quanti'][f]
@@ -214,6 +259,10 @@ def reference_measure(spec, f):
         if nn.count(mode) / len(x) >= 0.999:
             return None
         if spec['task'] == 'classification':
+            if spec['measures'] == 'outlier' and zscore_discards(x, 0.03):
+                return None
+            if spec['measures'] == 'multi' and which == 1:
+                return eta(x, y)
             classes = list(dict.fromkeys(y))
             return kruskal_h([[v for v, c in zip(x, y) if v is not None and c == cl] for cl in classes])
         r = pearson(x, [float(v) for v in y])
@@ -251,8 +300,11 @@ def code_measures(sel_obj, spec, X, y):
             tab = apply_measures(X, y, measures=sel_obj.measures[dtype], features=feats, **sel_obj.kwargs)
         cols = [c for c in tab.columns if c.endswith('_measure')]
         for f in feats:
-            v = tab.loc[f, cols[0]] if cols else None
-            out[f] = None if (v is None or (isinstance(v, float) and math.isnan(v))) else float(v)
+            vals = []
+            for c in cols:
+                v = tab.loc[f, c]
+                vals.append(None if (v is None or (isinstance(v, float) and math.isnan(v))) else float(v))
+            out[f] = vals
     return out
 
 
@@ -280,18 +332,21 @@ def case_of_spec(spec, cid, meta):
     sel_obj, res, exc, unchanged, X, y = run_select(spec)
     feats = list(spec['quanti']) + list(spec['quali'])
     fid = {f: i + 1 for i, f in enumerate(feats)}
-    mref = [scaled(reference_measure(spec, f)) for f in feats]
     try:
         cm = code_measures(sel_obj, spec, X, y) if exc is None else {}
     except Exception:
         cm = {}
-    mcode = [scaled(cm.get(f)) for f in feats]
     a = [[scaled(reference_assoc(spec, f, g)) if f != g else 0 for g in feats] for f in feats]
     groups = []
-    for names in (list(spec['quanti']), list(spec['quali'])):
+    for gi, names in enumerate((list(spec['quanti']), list(spec['quali']))):
         if names:
+            nm = 2 if (gi == 0 and spec['measures'] == 'multi' and spec['task'] == 'classification') else 1
+            mrefs = [[scaled(reference_measure(spec, f, k)) if f in names else -1 for f in feats] for k in range(nm)]
+            mcodes = [[scaled((cm.get(f) or [None] * nm)[k] if (f in names and len(cm.get(f) or []) > k) else None) for f in feats] for k in range(nm)]
             groups.append({'feats': [fid[f] for f in names], 'sel': [fid[f] for f in res if f in names],
-                           'nbest': spec['n_best'], 'thr': scaled(spec['thresh_corr'])})
+                           'nbest': spec['n_best'], 'thr': scaled(spec['thresh_corr']), 'mrefs': mrefs, 'mcodes': mcodes})
+    mref = [max((g['mrefs'][0][i] for g in groups), default=-1) for i in range(len(feats))]
+    mcode = [max((g['mcodes'][0][i] for g in groups), default=-1) for i in range(len(feats))]
     must = [fid[spec['copy_of_target']]] if spec.get('copy_of_target') else []
     meta = dict(meta)
     meta.update({'task': spec['task'], 'measures': spec['measures'], 'selected': list(res), 'exc': None if exc is None else repr(exc)[:300],
